@@ -101,6 +101,14 @@ func InvokeThriftgo(SDKPlugins []plugin.SDKPlugin, args ...string) (err error) {
 		return fmt.Errorf("No output language(s) specified")
 	}
 
+	// validate every target before generating anything: a bad later -g must not leave the
+	// output of the earlier ones behind
+	for _, out := range langs {
+		if g.GetBackend(out.Language) == nil {
+			return fmt.Errorf("No generator for language '%s'.", out.Language)
+		}
+	}
+
 	for _, out := range langs {
 		out.UsedPlugins = plugins
 		out.SDKPlugins = SDKPlugins
